@@ -221,6 +221,59 @@ func (g *Gen) DeepMid() node.Type {
 	return mid
 }
 
+// fixedContainers binds a (2 ints) and s (2 bytes) so that index positions do not fork on lengths.
+func (g *Gen) fixedContainers() {
+	if !g.arrSet {
+		g.arrSet = true
+		g.setGlobal("a", value.NewArray([]value.Type{value.NewInt(vrt.Int("a.elem")), value.NewInt(vrt.Int("a.elem"))}))
+	}
+	if !g.strSet {
+		g.strSet = true
+		g.setGlobal("s", value.NewString(vrt.Bytes("s", 2)))
+	}
+}
+
+// crossWraps: a[e], s[k:e], id(e), [k, e], -e, a[e:k], #[e]
+var crossWraps = [...]int{0, 3, 5, 7, 8, 2, 6}
+
+// Operand builds an operand of class c over symbolic int literals:
+// 0 l   1 W(l)   2 l op l   3 W(l op l)   4 (l op l) op l   5 W((l op l) op l)   6 l op (l op l)
+const NOperandClasses = 7
+
+func (g *Gen) Operand(c int) node.Type {
+	l := func() node.Type { return node.Int(vrt.Int("lit")) }
+	iop := func() string { return g.Ops[vrt.Choice("inner-op", vrt.Param("innerops", 2))] }
+	w := func(e node.Type) node.Type {
+		return g.Wrap(crossWraps[vrt.Choice("cross-wrap", vrt.Param("crosswraps", len(crossWraps)))], e)
+	}
+	switch c {
+	case 0:
+		return l()
+	case 1:
+		return w(l())
+	case 2:
+		return node.BinOp{Op: iop(), Left: l(), Right: l()}
+	case 3:
+		return w(node.BinOp{Op: iop(), Left: l(), Right: l()})
+	case 4:
+		return node.BinOp{Op: iop(), Left: node.BinOp{Op: iop(), Left: l(), Right: l()}, Right: l()}
+	case 5:
+		return w(node.BinOp{Op: iop(), Left: node.BinOp{Op: iop(), Left: l(), Right: l()}, Right: l()})
+	default:
+		return node.BinOp{Op: iop(), Left: l(), Right: node.BinOp{Op: iop(), Left: l(), Right: l()}}
+	}
+}
+
+// Cross builds A op B with both operands from every operand class: the temp-register and
+// operand-stack strategies of the compiler meet every pairing of plain, wrapped (indexed, sliced,
+// passed to a call, array element, negated) and compound operands.
+func (g *Gen) Cross() (a, b node.Type, op string) {
+	g.fixedContainers()
+	a = g.Operand(vrt.Choice("left-class", NOperandClasses))
+	b = g.Operand(vrt.Choice("right-class", NOperandClasses))
+	return a, b, g.op()
+}
+
 // Chain builds a left- or right-nested chain of k operators over leaves.
 func (g *Gen) Chain(k int) node.Type {
 	e := g.Leaf()
